@@ -284,6 +284,9 @@ class Delegations:
                     caporlab = Labels(**caporlabdict)
             elif ABCPropertyGraphConstants.FIELD_POOL in v.keys():
                 # pool reference
+                if ABCPropertyGraphConstants.FIELD_CAPACITIES in v.keys() or \
+                        ABCPropertyGraphConstants.FIELD_LABELS in v.keys():
+                    raise DelegationException(msg=f'Pool reference delegation {k} cannot carry capacities or labels')
                 format = DelegationFormat.PoolReference
                 pool_id = v[ABCPropertyGraphConstants.FIELD_POOL]
                 caporlab = None
